@@ -1086,11 +1086,26 @@ impl World {
         out
     }
 
-    /// Hash of the full event log (bytes included).
+    /// Hash of the full event log (bytes included). Master-server requests are hashed as
+    /// byte multisets: gamedig emits the filters of a std HashMap (RandomState), so their
+    /// order inside the request differs from process to process and is not part of any property.
     pub fn log_hash(&self) -> u64 {
+        fn canon(d: &[u8]) -> Vec<u8> {
+            if d.len() > 3 && d[0] == 0x31 {
+                let mut v = d.to_vec();
+                v.sort_unstable();
+                v
+            } else {
+                d.to_vec()
+            }
+        }
         let mut f = Fnv::default();
         for h in &self.hist {
-            f.str(&format!("{h:?}"));
+            match h {
+                Hist::UdpSend { t, sock, to, data, ok } => f.str(&format!("S{t} {sock} {to} {ok} {:?}", canon(data))),
+                Hist::ServerRx { t, server, proto, from, data } => f.str(&format!("X{t} {server} {proto:?} {from} {:?}", canon(data))),
+                other => f.str(&format!("{other:?}")),
+            }
         }
         f.0
     }
